@@ -57,9 +57,9 @@ prop('C08', level='proof', v=False, technique=_T_K,
 prop('C09', level='proof', technique=_T_V + '; ' + _T_K,
      level_text='The checksum helpers (u32/u64 accumulators, Sum16BitWords) are proved by Verus, for slices of every length, to compute the RFC 1071 one\'s complement sum (spec functions oc16 / wsum, loop invariants, end-around-carry lemmas); on top of them UDP (IPv4/IPv6, all variants), TCP (TcpHeader, TcpHeaderSlice, TcpSlice; IPv4/IPv6) and the ICMPv6 validator are proved equal to the RFC 768 / 9293 / 4443 pseudo-header checksum in big-endian form incl. the never-zero rule. IPv4 header, ICMPv4, ICMPv6 message and IGMP checksums are decided by Kani harnesses with an independent RFC oracle (bounded payloads).',
      level_note=_NOTE_V + '; ' + _NOTE_K)
-prop('C10', level='model_checking', v=False, technique=_T_K,
-     level_text='PacketBuilder: size() == bytes written, length fields and checksums consistent, decided by Kani on the real builder with bounded payloads (<= 5 B) and the checksum helpers replaced by their proved contract (ideal accumulator). The builder writes through io::Write / ArrayVec, outside the Verus front end; bounded model checking is what is available.',
-     level_note=_NOTE_K)
+prop('C10', level='model_checking', technique=_T_K + '; ' + _T_V,
+     level_text='PacketBuilder: size() == bytes written, length fields, ether types / protocol numbers and checksums consistent, error configurations: decided by Kani on the real builder with bounded payloads and the checksum helpers replaced by their proved contract (ideal accumulator); the length limits by fabricated payloads around the field limits. The builder writes through io::Write / ArrayVec and is generic over writer and error type, outside the Verus front end, so bounded model checking is what decides the builder itself. The checksum functions the builder calls to fill in the IPv4 header, UDP and TCP checksums (Ipv4Header::calc_header_checksum, UdpHeader/TcpHeader::calc_checksum_ipv4/ipv6) are under Verus contract for all headers and all payload lengths (clause "all checksums verify").',
+     level_note=_NOTE_K + '; ' + _NOTE_V)
 prop('C11', level='model_checking', v=False, technique=_T_K,
      level_text='IP defragmentation: IpFragRange merge algebra complete (all u16 ranges); IpDefragBuf one- and two-step contracts from symbolic buffer states (section lists bounded), pool-level sequences bounded. The buffer uses Vec and sort, outside Verus\' reach here.',
      level_note=_NOTE_K)
@@ -123,6 +123,11 @@ PAIRS = {
     'Ipv6Header::dscp': ['h_newtypes::c15_ipv6_header_traffic_class'],
     'Ipv6Header::ecn': ['h_newtypes::c15_ipv6_header_traffic_class'],
     # checksums: protocol-level harnesses with the RFC oracle (small payloads) + the 64 KiB boundary harnesses
+    'LaxSlicedPacketCursor::slice_transport': ['h_packet::c05_lax_vs_strict_ip_v4_udp', 'h_packet::c05_lax_vs_strict_ip_v4_tcp', 'h_packet::c05_lax_vs_strict_ip_v4_icmpv4', 'h_packet::c05_lax_vs_strict_ip_v6_icmpv6'],
+    'LaxSlicedPacketCursor::slice_ip': ['h_packet::c05_lax_vs_strict_ip_v4_udp', 'h_packet::c05_lax_vs_strict_ip_v4_auth', 'h_packet::c05_lax_vs_strict_ip_v6_udp', 'h_packet::c05_lax_vs_strict_ip_any_short'],
+    'LaxSlicedPacketCursor::parse_from_ip': ['h_packet::c05_lax_vs_strict_ip_v4_udp', 'h_packet::c05_lax_vs_strict_ip_v4_auth', 'h_packet::c05_lax_vs_strict_ip_v6_udp', 'h_packet::c05_lax_vs_strict_ip_any_short'],
+    'LaxSlicedPacket::from_ip': ['h_packet::c05_lax_vs_strict_ip_v4_udp', 'h_packet::c05_lax_vs_strict_ip_v4_auth', 'h_packet::c05_lax_vs_strict_ip_v6_udp', 'h_packet::c05_lax_vs_strict_ip_any_short'],
+    'LinuxSllHeaderSlice::sender_address': ['h_packet::c01_touch_linux_sll_slice'],
     'Ipv4Header::calc_header_checksum': ['h_builder::c09_k_proto_ipv4_header'],
     'UdpSlice::from_slice_lax': ['h_packet::c01_touch_udp_slice', 'h_packet::c05_lax_vs_strict_ip_v4_udp'],
     'UdpHeader::calc_checksum_post_ip': ['h_builder::c09_k_proto_udp_ipv4', 'h_builder::c09_k_proto_udp_ipv6'],
@@ -250,7 +255,7 @@ harness('h_packet::c01_touch_ipv6_exts_slice_lax', ['C01'], 'bounded (any first 
 # ---- C11 / C12 (agent k-exts-defrag) -----------------------------------------------------------------------------------------
 harness('h_extdef::c11_frag_range_merge', ['C11'], 'complete (loop-free, 4 x u16)', 'IpFragRange::merge: Some iff closed ranges touch/overlap, exact union, symmetric', tier='quick', bound='none', timeout=120)
 harness('h_extdef::c11_defrag_buf_step2', ['C11'], 'bounded (2 fragments <=16 B, 64-byte window)', 'IpDefragBuf::add step contract vs ghost view (well-formed sections, bytes kept, documented errors, Err leaves state)', tier='quick', bound='2 adds, frag<=16B, window 64B', timeout=900)
-harness('h_extdef::c11_defrag_buf_step', ['C11'], 'bounded (3 fragments <=16 B, 64-byte window)', 'same contract, pre-state = up to 2 accepted fragments', tier='thorough', bound='3 adds, frag<=16B, window 64B', timeout=1800, heavy=True)
+harness('h_extdef::c11_defrag_buf_step', ['C11'], 'bounded (3 fragments <=16 B, 64-byte window)', 'same contract, pre-state = up to 2 accepted fragments', tier='quick', bound='3 adds, frag<=16B, window 64B', timeout=1800, heavy=True)
 harness('h_extdef::c11_defrag_buf_orders', ['C11'], 'bounded (3x8 B cut, 6 orders, recycled stale buffer)', 'complete exactly at last missing fragment, data==payload, no stale bytes', tier='quick', bound='one cut 3x8B', timeout=900)
 harness('h_extdef::c11_defrag_buf_dups', ['C11'], 'bounded (2x8 B cut, 3 deliveries with one duplicate)', 'duplicates before/after completion', tier='quick', bound='one cut 2x8B', timeout=900)
 harness('h_extdef::c12_set_then_walk', ['C12'], 'complete for walk domain (48 presence combos x links x n)', 'set_next_headers links in RFC 8200 order, next_header(first)==Ok(n)', tier='quick', bound='payload sizes minimal', timeout=300)
@@ -265,6 +270,7 @@ harness('h_extdef::c12_ip_headers_ether_type_v4', ['C12'], 'complete (presence x
 for _n, _w in [('vx_u16_from_be_bytes', 'u16::from_be_bytes == b0*256+b1'), ('vx_u32_from_be_bytes', 'u32::from_be_bytes value'),
                ('vx_u64_from_be_bytes', 'u64::from_be_bytes value'), ('vx_from_ne_bytes_little_endian', 'from_ne_bytes on this (little-endian) target'),
                ('vx_overflowing_add', 'overflowing_add (u64, u32): wrapped sum and carry'), ('vx_u16_to_be', 'u16::to_be is the byte swap'),
+               ('vx_min_usize', 'core::cmp::min on usize'),
                ('vx_sll_packet_type_try_from', 'assumed spec of TryFrom<u16> for LinuxSllPacketType'),
                ('vx_sll_protocol_type_try_from', 'assumed spec of TryFrom<(ArpHardwareId,u16)> for LinuxSllProtocolType, From<u16> for ArpHardwareId')]:
     harness('h_vxlib::' + _n, ['C01', 'C09'] if 'sll' not in _n else ['C01'], 'complete (loop-free or width-bounded, full input domain)', 'trusted-base check: ' + _w, tier='quick', timeout=300)
